@@ -551,321 +551,192 @@ Require Verif.Tie.Parse.SemverRange.
 Require Verif.Tie.Vers.Code.
 Require Verif.Tie.Vers.Constraints.
 Require Verif.Tie.Vers.CoreAlternating.
+Require Verif.Tie.Vers.CoreDispatch.
 Require Verif.Tie.Vers.CoreGroup.
+Require Verif.Tie.Vers.CoreGroupTie.
+Require Verif.Tie.Vers.CoreToRanges.
 Require Verif.Tie.Vers.Printers.
 Require Verif.Tie.Vers.Pypi.
 Require Verif.Tie.Vers.Texts.
 Require Verif.Tie.Vers.Valid.
-Definition C06_tie_loops_alpine_hasLeadingZero_no_panic := Verif.Tie.Loops.Alpine.loops_alpine_hasLeadingZero_no_panic.
-Print Assumptions C06_tie_loops_alpine_hasLeadingZero_no_panic.
-Definition C06_tie_loops_alpine_compareNumericArraysNumeric_no_panic := Verif.Tie.Loops.Alpine.loops_alpine_compareNumericArraysNumeric_no_panic.
-Print Assumptions C06_tie_loops_alpine_compareNumericArraysNumeric_no_panic.
-Definition C06_tie_loops_alpine_compareSuffixArrays_no_panic := Verif.Tie.Loops.Alpine.loops_alpine_compareSuffixArrays_no_panic.
-Print Assumptions C06_tie_loops_alpine_compareSuffixArrays_no_panic.
-Definition C06_tie_loops_alpm_isAlphaSegment_no_panic := Verif.Tie.Loops.Alpm.loops_alpm_isAlphaSegment_no_panic.
-Print Assumptions C06_tie_loops_alpm_isAlphaSegment_no_panic.
-Definition C06_tie_loops_alpm_compareSegments_no_panic := Verif.Tie.Loops.Alpm.loops_alpm_compareSegments_no_panic.
-Print Assumptions C06_tie_loops_alpm_compareSegments_no_panic.
-Definition C06_tie_loops_alpm_compareSegmentBySegment_no_panic := Verif.Tie.Loops.Alpm.loops_alpm_compareSegmentBySegment_no_panic.
-Print Assumptions C06_tie_loops_alpm_compareSegmentBySegment_no_panic.
-Definition C06_tie_loops_cargo_comparePrereleaseIdentifiers_no_panic := Verif.Tie.Loops.Cargo.loops_cargo_comparePrereleaseIdentifiers_no_panic.
-Print Assumptions C06_tie_loops_cargo_comparePrereleaseIdentifiers_no_panic.
-Definition C06_tie_loops_conan_naturalCompare_no_panic := Verif.Tie.Loops.Conan.loops_conan_naturalCompare_no_panic.
-Print Assumptions C06_tie_loops_conan_naturalCompare_no_panic.
-Definition C06_tie_loops_conan_compareVersionParts_no_panic := Verif.Tie.Loops.Conan.loops_conan_compareVersionParts_no_panic.
-Print Assumptions C06_tie_loops_conan_compareVersionParts_no_panic.
-Definition C06_tie_loops_conan_comparePrerelease_no_panic := Verif.Tie.Loops.Conan.loops_conan_comparePrerelease_no_panic.
-Print Assumptions C06_tie_loops_conan_comparePrerelease_no_panic.
-Definition C06_tie_loops_conan_tildeMatch_no_panic := Verif.Tie.Loops.ConanRange.loops_conan_tildeMatch_no_panic.
-Print Assumptions C06_tie_loops_conan_tildeMatch_no_panic.
-Definition C06_tie_loops_conan_caretMatch_no_panic := Verif.Tie.Loops.ConanRange.loops_conan_caretMatch_no_panic.
-Print Assumptions C06_tie_loops_conan_caretMatch_no_panic.
-Definition C06_tie_loops_cran_compare_no_panic := Verif.Tie.Loops.Cran.loops_cran_compare_no_panic.
-Print Assumptions C06_tie_loops_cran_compare_no_panic.
-Definition C06_tie_loops_debian_no_panic := Verif.Tie.Loops.Debian.loops_debian_no_panic.
-Print Assumptions C06_tie_loops_debian_no_panic.
-Definition C06_tie_loops_gem_removeTrailingZeros_no_panic := Verif.Tie.Loops.Gem.loops_gem_removeTrailingZeros_no_panic.
-Print Assumptions C06_tie_loops_gem_removeTrailingZeros_no_panic.
-Definition C06_tie_loops_gem_split_no_panic := Verif.Tie.Loops.Gem.loops_gem_split_no_panic.
-Print Assumptions C06_tie_loops_gem_split_no_panic.
-Definition C06_tie_loops_gem_compareSegmentArrays_no_panic := Verif.Tie.Loops.Gem.loops_gem_compareSegmentArrays_no_panic.
-Print Assumptions C06_tie_loops_gem_compareSegmentArrays_no_panic.
-Definition C06_tie_loops_gem_compare_no_panic := Verif.Tie.Loops.Gem.loops_gem_compare_no_panic.
-Print Assumptions C06_tie_loops_gem_compare_no_panic.
-Definition C06_tie_loops_golang_comparePrerelease_no_panic := Verif.Tie.Loops.Golang.loops_golang_comparePrerelease_no_panic.
-Print Assumptions C06_tie_loops_golang_comparePrerelease_no_panic.
-Definition C06_tie_loops_hex_comparePreRelease_no_panic := Verif.Tie.Loops.Hex.loops_hex_comparePreRelease_no_panic.
-Print Assumptions C06_tie_loops_hex_comparePreRelease_no_panic.
-Definition C06_tie_loops_maven_trimTrailingNulls_no_panic := Verif.Tie.Loops.Maven.loops_maven_trimTrailingNulls_no_panic.
-Print Assumptions C06_tie_loops_maven_trimTrailingNulls_no_panic.
-Definition C06_tie_loops_npm_comparePrerelease_no_panic := Verif.Tie.Loops.Npm.loops_npm_comparePrerelease_no_panic.
-Print Assumptions C06_tie_loops_npm_comparePrerelease_no_panic.
-Definition C06_tie_loops_nuget_comparePrerelease_no_panic := Verif.Tie.Loops.Nuget.loops_nuget_comparePrerelease_no_panic.
-Print Assumptions C06_tie_loops_nuget_comparePrerelease_no_panic.
-Definition C06_tie_loops_pypi_compareReleaseVersions_no_panic := Verif.Tie.Loops.Pypi.loops_pypi_compareReleaseVersions_no_panic.
-Print Assumptions C06_tie_loops_pypi_compareReleaseVersions_no_panic.
-Definition C06_tie_loops_rpm_compareRPMVersionString_no_panic := Verif.Tie.Loops.Rpm.loops_rpm_compareRPMVersionString_no_panic.
-Print Assumptions C06_tie_loops_rpm_compareRPMVersionString_no_panic.
-Definition C06_tie_loops_semver_comparePrerelease_no_panic := Verif.Tie.Loops.Semver.loops_semver_comparePrerelease_no_panic.
-Print Assumptions C06_tie_loops_semver_comparePrerelease_no_panic.
-Definition C06_tie_parse_alpine_parseConstraint := Verif.Tie.Parse.AlpineRange.tie_parse_alpine_parseConstraint.
-Print Assumptions C06_tie_parse_alpine_parseConstraint.
-Definition C06_tie_parse_alpine_parseConstraints := Verif.Tie.Parse.AlpineRange.tie_parse_alpine_parseConstraints.
-Print Assumptions C06_tie_parse_alpine_parseConstraints.
-Definition C06_tie_parse_alpine_newversionrange := Verif.Tie.Parse.AlpineRange.tie_parse_alpine_newversionrange.
-Print Assumptions C06_tie_parse_alpine_newversionrange.
-Definition C06_tie_newversion_alpm_no_panic := Verif.Tie.Parse.Alpm.newversion_alpm_no_panic.
-Print Assumptions C06_tie_newversion_alpm_no_panic.
-Definition C06_tie_parse_alpm_newversion := Verif.Tie.Parse.Alpm.tie_parse_alpm_newversion.
-Print Assumptions C06_tie_parse_alpm_newversion.
-Definition C06_tie_parse_alpm_parseConstraint := Verif.Tie.Parse.AlpmRange.tie_parse_alpm_parseConstraint.
-Print Assumptions C06_tie_parse_alpm_parseConstraint.
-Definition C06_tie_parse_alpm_parseConstraints := Verif.Tie.Parse.AlpmRange.tie_parse_alpm_parseConstraints.
-Print Assumptions C06_tie_parse_alpm_parseConstraints.
-Definition C06_tie_parse_alpm_newversionrange := Verif.Tie.Parse.AlpmRange.tie_parse_alpm_newversionrange.
-Print Assumptions C06_tie_parse_alpm_newversionrange.
-Definition C06_tie_parse_alpm_newversionrange_model := Verif.Tie.Parse.AlpmRange.tie_parse_alpm_newversionrange_model.
-Print Assumptions C06_tie_parse_alpm_newversionrange_model.
-Definition C06_tie_newversion_apache_no_panic := Verif.Tie.Parse.Apache.newversion_apache_no_panic.
-Print Assumptions C06_tie_newversion_apache_no_panic.
-Definition C06_tie_parse_apache_newversion := Verif.Tie.Parse.Apache.tie_parse_apache_newversion.
-Print Assumptions C06_tie_parse_apache_newversion.
-Definition C06_tie_parse_apache_parseConstraint := Verif.Tie.Parse.ApacheRange.tie_parse_apache_parseConstraint.
-Print Assumptions C06_tie_parse_apache_parseConstraint.
-Definition C06_tie_parse_apache_parseConstraints := Verif.Tie.Parse.ApacheRange.tie_parse_apache_parseConstraints.
-Print Assumptions C06_tie_parse_apache_parseConstraints.
-Definition C06_tie_parse_apache_newversionrange := Verif.Tie.Parse.ApacheRange.tie_parse_apache_newversionrange.
-Print Assumptions C06_tie_parse_apache_newversionrange.
-Definition C06_tie_newversion_cargo_no_panic := Verif.Tie.Parse.Cargo.newversion_cargo_no_panic.
-Print Assumptions C06_tie_newversion_cargo_no_panic.
-Definition C06_tie_parse_cargo_newversion := Verif.Tie.Parse.Cargo.tie_parse_cargo_newversion.
-Print Assumptions C06_tie_parse_cargo_newversion.
-Definition C06_tie_parse_cargo_parseConstraint := Verif.Tie.Parse.CargoRange.tie_parse_cargo_parseConstraint.
-Print Assumptions C06_tie_parse_cargo_parseConstraint.
-Definition C06_tie_parse_cargo_parseConstraints := Verif.Tie.Parse.CargoRange.tie_parse_cargo_parseConstraints.
-Print Assumptions C06_tie_parse_cargo_parseConstraints.
-Definition C06_tie_parse_cargo_newversionrange_nv := Verif.Tie.Parse.CargoRange.tie_parse_cargo_newversionrange_nv.
-Print Assumptions C06_tie_parse_cargo_newversionrange_nv.
-Definition C06_tie_parse_cargo_newversionrange := Verif.Tie.Parse.CargoRange.tie_parse_cargo_newversionrange.
-Print Assumptions C06_tie_parse_cargo_newversionrange.
-Definition C06_tie_parse_composer_parseHyphenRange := Verif.Tie.Parse.ComposerRange.tie_parse_composer_parseHyphenRange.
-Print Assumptions C06_tie_parse_composer_parseHyphenRange.
-Definition C06_tie_parse_composer_space := Verif.Tie.Parse.ComposerRange.tie_parse_composer_space.
-Print Assumptions C06_tie_parse_composer_space.
-Definition C06_tie_parse_composer_parseRange := Verif.Tie.Parse.ComposerRange.tie_parse_composer_parseRange.
-Print Assumptions C06_tie_parse_composer_parseRange.
-Definition C06_tie_parse_composer_parseRangeGroups := Verif.Tie.Parse.ComposerRange.tie_parse_composer_parseRangeGroups.
-Print Assumptions C06_tie_parse_composer_parseRangeGroups.
-Definition C06_tie_parse_composer_newversionrange := Verif.Tie.Parse.ComposerRange.tie_parse_composer_newversionrange.
-Print Assumptions C06_tie_parse_composer_newversionrange.
-Definition C06_tie_newversion_conan_no_panic := Verif.Tie.Parse.Conan.newversion_conan_no_panic.
-Print Assumptions C06_tie_newversion_conan_no_panic.
-Definition C06_tie_newversion_matched := Verif.Tie.Parse.Conan.newversion_matched.
-Print Assumptions C06_tie_newversion_matched.
-Definition C06_tie_newversion_unmatched := Verif.Tie.Parse.Conan.newversion_unmatched.
-Print Assumptions C06_tie_newversion_unmatched.
-Definition C06_tie_parse_conan_newversion := Verif.Tie.Parse.Conan.tie_parse_conan_newversion.
-Print Assumptions C06_tie_parse_conan_newversion.
-Definition C06_tie_parse_conan_newversionrange := Verif.Tie.Parse.ConanRange.tie_parse_conan_newversionrange.
-Print Assumptions C06_tie_parse_conan_newversionrange.
-Definition C06_tie_parse_cran_parseConstraint := Verif.Tie.Parse.CranRange.tie_parse_cran_parseConstraint.
-Print Assumptions C06_tie_parse_cran_parseConstraint.
-Definition C06_tie_parse_cran_parseConstraints := Verif.Tie.Parse.CranRange.tie_parse_cran_parseConstraints.
-Print Assumptions C06_tie_parse_cran_parseConstraints.
-Definition C06_tie_parse_cran_newversionrange := Verif.Tie.Parse.CranRange.tie_parse_cran_newversionrange.
-Print Assumptions C06_tie_parse_cran_newversionrange.
-Definition C06_tie_newversion_debian_no_panic := Verif.Tie.Parse.Debian.newversion_debian_no_panic.
-Print Assumptions C06_tie_newversion_debian_no_panic.
-Definition C06_tie_parse_debian_newversion := Verif.Tie.Parse.Debian.tie_parse_debian_newversion.
-Print Assumptions C06_tie_parse_debian_newversion.
-Definition C06_tie_parse_debian_parseConstraint := Verif.Tie.Parse.DebianRange.tie_parse_debian_parseConstraint.
-Print Assumptions C06_tie_parse_debian_parseConstraint.
-Definition C06_tie_parse_debian_parseConstraints := Verif.Tie.Parse.DebianRange.tie_parse_debian_parseConstraints.
-Print Assumptions C06_tie_parse_debian_parseConstraints.
-Definition C06_tie_parse_debian_newversionrange := Verif.Tie.Parse.DebianRange.tie_parse_debian_newversionrange.
-Print Assumptions C06_tie_parse_debian_newversionrange.
-Definition C06_tie_newversionrange_debian_no_panic_closed := Verif.Tie.Parse.DebianRangeClosed.newversionrange_debian_no_panic_closed.
-Print Assumptions C06_tie_newversionrange_debian_no_panic_closed.
-Definition C06_tie_parse_debian_newversionrange_closed := Verif.Tie.Parse.DebianRangeClosed.tie_parse_debian_newversionrange_closed.
-Print Assumptions C06_tie_parse_debian_newversionrange_closed.
-Definition C06_tie_newversion_gem_no_panic := Verif.Tie.Parse.Gem.newversion_gem_no_panic.
-Print Assumptions C06_tie_newversion_gem_no_panic.
-Definition C06_tie_parse_gem_parseSegments := Verif.Tie.Parse.Gem.tie_parse_gem_parseSegments.
-Print Assumptions C06_tie_parse_gem_parseSegments.
-Definition C06_tie_parse_gem_newversion := Verif.Tie.Parse.Gem.tie_parse_gem_newversion.
-Print Assumptions C06_tie_parse_gem_newversion.
-Definition C06_tie_parse_gem_parseConstraint := Verif.Tie.Parse.GemRange.tie_parse_gem_parseConstraint.
-Print Assumptions C06_tie_parse_gem_parseConstraint.
-Definition C06_tie_parse_gem_parseConstraints := Verif.Tie.Parse.GemRange.tie_parse_gem_parseConstraints.
-Print Assumptions C06_tie_parse_gem_parseConstraints.
-Definition C06_tie_parse_gem_newversionrange_core := Verif.Tie.Parse.GemRange.tie_parse_gem_newversionrange_core.
-Print Assumptions C06_tie_parse_gem_newversionrange_core.
-Definition C06_tie_parse_gem_newversionrange := Verif.Tie.Parse.GemRange.tie_parse_gem_newversionrange.
-Print Assumptions C06_tie_parse_gem_newversionrange.
-Definition C06_tie_newversion_gentoo_no_panic := Verif.Tie.Parse.Gentoo.newversion_gentoo_no_panic.
-Print Assumptions C06_tie_newversion_gentoo_no_panic.
-Definition C06_tie_parse_gentoo_newversion := Verif.Tie.Parse.Gentoo.tie_parse_gentoo_newversion.
-Print Assumptions C06_tie_parse_gentoo_newversion.
-Definition C06_tie_parse_gentoo_parseSingleConstraint := Verif.Tie.Parse.GentooRange.tie_parse_gentoo_parseSingleConstraint.
-Print Assumptions C06_tie_parse_gentoo_parseSingleConstraint.
-Definition C06_tie_parse_gentoo_parseRange := Verif.Tie.Parse.GentooRange.tie_parse_gentoo_parseRange.
-Print Assumptions C06_tie_parse_gentoo_parseRange.
-Definition C06_tie_parse_gentoo_newversionrange := Verif.Tie.Parse.GentooRange.tie_parse_gentoo_newversionrange.
-Print Assumptions C06_tie_parse_gentoo_newversionrange.
-Definition C06_tie_newversionrange_gentoo_no_panic_closed := Verif.Tie.Parse.GentooRangeClosed.newversionrange_gentoo_no_panic_closed.
-Print Assumptions C06_tie_newversionrange_gentoo_no_panic_closed.
-Definition C06_tie_parse_gentoo_newversionrange_closed := Verif.Tie.Parse.GentooRangeClosed.tie_parse_gentoo_newversionrange_closed.
-Print Assumptions C06_tie_parse_gentoo_newversionrange_closed.
-Definition C06_tie_newversion_github_no_panic := Verif.Tie.Parse.Github.newversion_github_no_panic.
-Print Assumptions C06_tie_newversion_github_no_panic.
-Definition C06_tie_parse_github_newversion := Verif.Tie.Parse.Github.tie_parse_github_newversion.
-Print Assumptions C06_tie_parse_github_newversion.
-Definition C06_tie_parse_github_parseConstraint := Verif.Tie.Parse.GithubRange.tie_parse_github_parseConstraint.
-Print Assumptions C06_tie_parse_github_parseConstraint.
-Definition C06_tie_parse_github_parseConstraints := Verif.Tie.Parse.GithubRange.tie_parse_github_parseConstraints.
-Print Assumptions C06_tie_parse_github_parseConstraints.
-Definition C06_tie_parse_github_newversionrange := Verif.Tie.Parse.GithubRange.tie_parse_github_newversionrange.
-Print Assumptions C06_tie_parse_github_newversionrange.
-Definition C06_tie_parse_github_newversionrange_model := Verif.Tie.Parse.GithubRange.tie_parse_github_newversionrange_model.
-Print Assumptions C06_tie_parse_github_newversionrange_model.
-Definition C06_tie_parse_golang_parseSingleGoConstraint := Verif.Tie.Parse.GolangRange.tie_parse_golang_parseSingleGoConstraint.
-Print Assumptions C06_tie_parse_golang_parseSingleGoConstraint.
-Definition C06_tie_parse_golang_parseGoRange := Verif.Tie.Parse.GolangRange.tie_parse_golang_parseGoRange.
-Print Assumptions C06_tie_parse_golang_parseGoRange.
-Definition C06_tie_parse_golang_newversionrange := Verif.Tie.Parse.GolangRange.tie_parse_golang_newversionrange.
-Print Assumptions C06_tie_parse_golang_newversionrange.
-Definition C06_tie_newversion_hex_no_panic := Verif.Tie.Parse.Hex.newversion_hex_no_panic.
-Print Assumptions C06_tie_newversion_hex_no_panic.
-Definition C06_tie_parse_hex_parseConstraint := Verif.Tie.Parse.HexRange.tie_parse_hex_parseConstraint.
-Print Assumptions C06_tie_parse_hex_parseConstraint.
-Definition C06_tie_parse_hex_parseConstraints := Verif.Tie.Parse.HexRange.tie_parse_hex_parseConstraints.
-Print Assumptions C06_tie_parse_hex_parseConstraints.
-Definition C06_tie_parse_hex_newversionrange := Verif.Tie.Parse.HexRange.tie_parse_hex_newversionrange.
-Print Assumptions C06_tie_parse_hex_newversionrange.
-Definition C06_tie_newversion_mattermost_no_panic := Verif.Tie.Parse.Mattermost.newversion_mattermost_no_panic.
-Print Assumptions C06_tie_newversion_mattermost_no_panic.
-Definition C06_tie_parse_mattermost_parseConstraint := Verif.Tie.Parse.MattermostRange.tie_parse_mattermost_parseConstraint.
-Print Assumptions C06_tie_parse_mattermost_parseConstraint.
-Definition C06_tie_parse_mattermost_parseConstraints := Verif.Tie.Parse.MattermostRange.tie_parse_mattermost_parseConstraints.
-Print Assumptions C06_tie_parse_mattermost_parseConstraints.
-Definition C06_tie_parse_mattermost_newversionrange := Verif.Tie.Parse.MattermostRange.tie_parse_mattermost_newversionrange.
-Print Assumptions C06_tie_parse_mattermost_newversionrange.
-Definition C06_tie_newversion_maven_no_panic := Verif.Tie.Parse.Maven.newversion_maven_no_panic.
-Print Assumptions C06_tie_newversion_maven_no_panic.
-Definition C06_tie_parse_maven_isValidMavenVersion := Verif.Tie.Parse.Maven.tie_parse_maven_isValidMavenVersion.
-Print Assumptions C06_tie_parse_maven_isValidMavenVersion.
-Definition C06_tie_parse_maven_newversion := Verif.Tie.Parse.Maven.tie_parse_maven_newversion.
-Print Assumptions C06_tie_parse_maven_newversion.
-Definition C06_tie_parse_maven_newversionrange := Verif.Tie.Parse.MavenRange.tie_parse_maven_newversionrange.
-Print Assumptions C06_tie_parse_maven_newversionrange.
-Definition C06_tie_newversion_npm_no_panic := Verif.Tie.Parse.Npm.newversion_npm_no_panic.
-Print Assumptions C06_tie_newversion_npm_no_panic.
-Definition C06_tie_parse_npm_newversion := Verif.Tie.Parse.Npm.tie_parse_npm_newversion.
-Print Assumptions C06_tie_parse_npm_newversion.
-Definition C06_tie_newversionrange_npm_no_panic_closed := Verif.Tie.Parse.NpmRangeClosed.newversionrange_npm_no_panic_closed.
-Print Assumptions C06_tie_newversionrange_npm_no_panic_closed.
-Definition C06_tie_newversion_nuget_no_panic := Verif.Tie.Parse.Nuget.newversion_nuget_no_panic.
-Print Assumptions C06_tie_newversion_nuget_no_panic.
-Definition C06_tie_parse_nuget_newversion := Verif.Tie.Parse.Nuget.tie_parse_nuget_newversion.
-Print Assumptions C06_tie_parse_nuget_newversion.
-Definition C06_tie_newversionrange_nuget_no_panic_closed := Verif.Tie.Parse.NugetRangeClosed.newversionrange_nuget_no_panic_closed.
-Print Assumptions C06_tie_newversionrange_nuget_no_panic_closed.
-Definition C06_tie_parse_pypi_parseSingleConstraint := Verif.Tie.Parse.PypiRange.tie_parse_pypi_parseSingleConstraint.
-Print Assumptions C06_tie_parse_pypi_parseSingleConstraint.
-Definition C06_tie_parse_pypi_newversionrange := Verif.Tie.Parse.PypiRange.tie_parse_pypi_newversionrange.
-Print Assumptions C06_tie_parse_pypi_newversionrange.
-Definition C06_tie_newversion_rpm_no_panic := Verif.Tie.Parse.Rpm.newversion_rpm_no_panic.
-Print Assumptions C06_tie_newversion_rpm_no_panic.
-Definition C06_tie_parse_rpm_newversion := Verif.Tie.Parse.Rpm.tie_parse_rpm_newversion.
-Print Assumptions C06_tie_parse_rpm_newversion.
-Definition C06_tie_parse_rpm_parseConstraint := Verif.Tie.Parse.RpmRange.tie_parse_rpm_parseConstraint.
-Print Assumptions C06_tie_parse_rpm_parseConstraint.
-Definition C06_tie_parse_rpm_parseConstraints := Verif.Tie.Parse.RpmRange.tie_parse_rpm_parseConstraints.
-Print Assumptions C06_tie_parse_rpm_parseConstraints.
-Definition C06_tie_parse_rpm_newversionrange := Verif.Tie.Parse.RpmRange.tie_parse_rpm_newversionrange.
-Print Assumptions C06_tie_parse_rpm_newversionrange.
-Definition C06_tie_newversionrange_rpm_no_panic_closed := Verif.Tie.Parse.RpmRangeClosed.newversionrange_rpm_no_panic_closed.
-Print Assumptions C06_tie_newversionrange_rpm_no_panic_closed.
-Definition C06_tie_parse_rpm_newversionrange_closed := Verif.Tie.Parse.RpmRangeClosed.tie_parse_rpm_newversionrange_closed.
-Print Assumptions C06_tie_parse_rpm_newversionrange_closed.
-Definition C06_tie_newversion_semver_no_panic := Verif.Tie.Parse.Semver.newversion_semver_no_panic.
-Print Assumptions C06_tie_newversion_semver_no_panic.
-Definition C06_tie_parse_semver_newversion := Verif.Tie.Parse.Semver.tie_parse_semver_newversion.
-Print Assumptions C06_tie_parse_semver_newversion.
-Definition C06_tie_parse_semver_comma := Verif.Tie.Parse.SemverRange.tie_parse_semver_comma.
-Print Assumptions C06_tie_parse_semver_comma.
-Definition C06_tie_parse_semver_space := Verif.Tie.Parse.SemverRange.tie_parse_semver_space.
-Print Assumptions C06_tie_parse_semver_space.
-Definition C06_tie_parse_semver_newversionrange := Verif.Tie.Parse.SemverRange.tie_parse_semver_newversionrange.
-Print Assumptions C06_tie_parse_semver_newversionrange.
-Definition C06_tie_shouldMergeConstraints_tie := Verif.Tie.Vers.Code.shouldMergeConstraints_tie.
-Print Assumptions C06_tie_shouldMergeConstraints_tie.
-Definition C06_tie_ensureVPrefix_tie := Verif.Tie.Vers.Code.ensureVPrefix_tie.
-Print Assumptions C06_tie_ensureVPrefix_tie.
-Definition C06_tie_parseConstraint_tie := Verif.Tie.Vers.Constraints.parseConstraint_tie.
-Print Assumptions C06_tie_parseConstraint_tie.
-Definition C06_tie_parseConstraint_finished := Verif.Tie.Vers.Constraints.parseConstraint_finished.
-Print Assumptions C06_tie_parseConstraint_finished.
-Definition C06_tie_parseConstraints_tie := Verif.Tie.Vers.Constraints.parseConstraints_tie.
-Print Assumptions C06_tie_parseConstraints_tie.
-Definition C06_tie_parseConstraints_finished := Verif.Tie.Vers.Constraints.parseConstraints_finished.
-Print Assumptions C06_tie_parseConstraints_finished.
-Definition C06_tie_parseConstraints_normalize := Verif.Tie.Vers.Constraints.parseConstraints_normalize.
-Print Assumptions C06_tie_parseConstraints_normalize.
-Definition C06_tie_alternatingIntervals_no_panic := Verif.Tie.Vers.CoreAlternating.alternatingIntervals_no_panic.
-Print Assumptions C06_tie_alternatingIntervals_no_panic.
-Definition C06_tie_alternatingIntervals_total := Verif.Tie.Vers.CoreAlternating.alternatingIntervals_total.
-Print Assumptions C06_tie_alternatingIntervals_total.
-Definition C06_tie_groupConstraintsIntoIntervals_no_panic := Verif.Tie.Vers.CoreGroup.groupConstraintsIntoIntervals_no_panic.
-Print Assumptions C06_tie_groupConstraintsIntoIntervals_no_panic.
-Definition C06_tie_groupConstraintsIntoIntervals_total := Verif.Tie.Vers.CoreGroup.groupConstraintsIntoIntervals_total.
-Print Assumptions C06_tie_groupConstraintsIntoIntervals_total.
-Definition C06_tie_alpine_printer_tie := Verif.Tie.Vers.Printers.alpine_printer_tie.
-Print Assumptions C06_tie_alpine_printer_tie.
-Definition C06_tie_cargo_printer_tie := Verif.Tie.Vers.Printers.cargo_printer_tie.
-Print Assumptions C06_tie_cargo_printer_tie.
-Definition C06_tie_debian_printer_tie := Verif.Tie.Vers.Printers.debian_printer_tie.
-Print Assumptions C06_tie_debian_printer_tie.
-Definition C06_tie_gem_printer_tie := Verif.Tie.Vers.Printers.gem_printer_tie.
-Print Assumptions C06_tie_gem_printer_tie.
-Definition C06_tie_golang_printer_tie := Verif.Tie.Vers.Printers.golang_printer_tie.
-Print Assumptions C06_tie_golang_printer_tie.
-Definition C06_tie_maven_printer_tie := Verif.Tie.Vers.Printers.maven_printer_tie.
-Print Assumptions C06_tie_maven_printer_tie.
-Definition C06_tie_npm_printer_tie := Verif.Tie.Vers.Printers.npm_printer_tie.
-Print Assumptions C06_tie_npm_printer_tie.
-Definition C06_tie_nuget_printer_tie := Verif.Tie.Vers.Printers.nuget_printer_tie.
-Print Assumptions C06_tie_nuget_printer_tie.
-Definition C06_tie_pypi_printer_tie := Verif.Tie.Vers.Printers.pypi_printer_tie.
-Print Assumptions C06_tie_pypi_printer_tie.
-Definition C06_tie_rpm_printer_tie := Verif.Tie.Vers.Printers.rpm_printer_tie.
-Print Assumptions C06_tie_rpm_printer_tie.
-Definition C06_tie_semver_printer_tie := Verif.Tie.Vers.Printers.semver_printer_tie.
-Print Assumptions C06_tie_semver_printer_tie.
-Definition C06_tie_printers_keys := Verif.Tie.Vers.Printers.printers_keys.
-Print Assumptions C06_tie_printers_keys.
-Definition C06_tie_printers_match_style_table := Verif.Tie.Vers.Printers.printers_match_style_table.
-Print Assumptions C06_tie_printers_match_style_table.
-Definition C06_tie_printers_on_model_interval := Verif.Tie.Vers.Printers.printers_on_model_interval.
-Print Assumptions C06_tie_printers_on_model_interval.
-Definition C06_tie_containsPrereleaseMarkers_tie := Verif.Tie.Vers.Pypi.containsPrereleaseMarkers_tie.
-Print Assumptions C06_tie_containsPrereleaseMarkers_tie.
-Definition C06_tie_containsPrereleaseMarkers_finished := Verif.Tie.Vers.Pypi.containsPrereleaseMarkers_finished.
-Print Assumptions C06_tie_containsPrereleaseMarkers_finished.
-Definition C06_tie_constraintsIncludePrerelease_finished := Verif.Tie.Vers.Pypi.constraintsIncludePrerelease_finished.
-Print Assumptions C06_tie_constraintsIncludePrerelease_finished.
-Definition C06_tie_constraintsIncludePrerelease_tie := Verif.Tie.Vers.Pypi.constraintsIncludePrerelease_tie.
-Print Assumptions C06_tie_constraintsIncludePrerelease_tie.
-Definition C06_tie_printers_texts := Verif.Tie.Vers.Texts.printers_texts.
-Print Assumptions C06_tie_printers_texts.
-Definition C06_tie_printers_texts_normalize := Verif.Tie.Vers.Texts.printers_texts_normalize.
-Print Assumptions C06_tie_printers_texts_normalize.
-Definition C06_tie_valid_tie := Verif.Tie.Vers.Valid.valid_tie.
-Print Assumptions C06_tie_valid_tie.
-Definition C06_tie_valid_finished := Verif.Tie.Vers.Valid.valid_finished.
-Print Assumptions C06_tie_valid_finished.
-Definition C06_tie_scheme_tie := Verif.Tie.Vers.Valid.scheme_tie.
-Print Assumptions C06_tie_scheme_tie.
-Definition C06_tie_scheme_finished := Verif.Tie.Vers.Valid.scheme_finished.
-Print Assumptions C06_tie_scheme_finished.
+Require Verif.Tie.Cli.Run.
+Require Verif.Tie.Cli.RunInst.
+Require Verif.Tie.Cli.Spec.
+Definition C06_tie_loops_alpine_hasLeadingZero_no_panic := @Verif.Tie.Loops.Alpine.loops_alpine_hasLeadingZero_no_panic.
+Definition C06_tie_loops_alpine_compareNumericArraysNumeric_no_panic := @Verif.Tie.Loops.Alpine.loops_alpine_compareNumericArraysNumeric_no_panic.
+Definition C06_tie_loops_alpine_compareSuffixArrays_no_panic := @Verif.Tie.Loops.Alpine.loops_alpine_compareSuffixArrays_no_panic.
+Definition C06_tie_loops_alpm_isAlphaSegment_no_panic := @Verif.Tie.Loops.Alpm.loops_alpm_isAlphaSegment_no_panic.
+Definition C06_tie_loops_alpm_compareSegments_no_panic := @Verif.Tie.Loops.Alpm.loops_alpm_compareSegments_no_panic.
+Definition C06_tie_loops_alpm_compareSegmentBySegment_no_panic := @Verif.Tie.Loops.Alpm.loops_alpm_compareSegmentBySegment_no_panic.
+Definition C06_tie_loops_cargo_comparePrereleaseIdentifiers_no_panic := @Verif.Tie.Loops.Cargo.loops_cargo_comparePrereleaseIdentifiers_no_panic.
+Definition C06_tie_loops_conan_naturalCompare_no_panic := @Verif.Tie.Loops.Conan.loops_conan_naturalCompare_no_panic.
+Definition C06_tie_loops_conan_compareVersionParts_no_panic := @Verif.Tie.Loops.Conan.loops_conan_compareVersionParts_no_panic.
+Definition C06_tie_loops_conan_comparePrerelease_no_panic := @Verif.Tie.Loops.Conan.loops_conan_comparePrerelease_no_panic.
+Definition C06_tie_loops_conan_tildeMatch_no_panic := @Verif.Tie.Loops.ConanRange.loops_conan_tildeMatch_no_panic.
+Definition C06_tie_loops_conan_caretMatch_no_panic := @Verif.Tie.Loops.ConanRange.loops_conan_caretMatch_no_panic.
+Definition C06_tie_loops_cran_compare_no_panic := @Verif.Tie.Loops.Cran.loops_cran_compare_no_panic.
+Definition C06_tie_loops_debian_no_panic := @Verif.Tie.Loops.Debian.loops_debian_no_panic.
+Definition C06_tie_loops_gem_removeTrailingZeros_no_panic := @Verif.Tie.Loops.Gem.loops_gem_removeTrailingZeros_no_panic.
+Definition C06_tie_loops_gem_split_no_panic := @Verif.Tie.Loops.Gem.loops_gem_split_no_panic.
+Definition C06_tie_loops_gem_compareSegmentArrays_no_panic := @Verif.Tie.Loops.Gem.loops_gem_compareSegmentArrays_no_panic.
+Definition C06_tie_loops_gem_compare_no_panic := @Verif.Tie.Loops.Gem.loops_gem_compare_no_panic.
+Definition C06_tie_loops_golang_comparePrerelease_no_panic := @Verif.Tie.Loops.Golang.loops_golang_comparePrerelease_no_panic.
+Definition C06_tie_loops_hex_comparePreRelease_no_panic := @Verif.Tie.Loops.Hex.loops_hex_comparePreRelease_no_panic.
+Definition C06_tie_loops_maven_trimTrailingNulls_no_panic := @Verif.Tie.Loops.Maven.loops_maven_trimTrailingNulls_no_panic.
+Definition C06_tie_loops_npm_comparePrerelease_no_panic := @Verif.Tie.Loops.Npm.loops_npm_comparePrerelease_no_panic.
+Definition C06_tie_loops_nuget_comparePrerelease_no_panic := @Verif.Tie.Loops.Nuget.loops_nuget_comparePrerelease_no_panic.
+Definition C06_tie_loops_pypi_compareReleaseVersions_no_panic := @Verif.Tie.Loops.Pypi.loops_pypi_compareReleaseVersions_no_panic.
+Definition C06_tie_loops_rpm_compareRPMVersionString_no_panic := @Verif.Tie.Loops.Rpm.loops_rpm_compareRPMVersionString_no_panic.
+Definition C06_tie_loops_semver_comparePrerelease_no_panic := @Verif.Tie.Loops.Semver.loops_semver_comparePrerelease_no_panic.
+Definition C06_tie_parse_alpine_parseConstraint := @Verif.Tie.Parse.AlpineRange.tie_parse_alpine_parseConstraint.
+Definition C06_tie_parse_alpine_parseConstraints := @Verif.Tie.Parse.AlpineRange.tie_parse_alpine_parseConstraints.
+Definition C06_tie_parse_alpine_newversionrange := @Verif.Tie.Parse.AlpineRange.tie_parse_alpine_newversionrange.
+Definition C06_tie_newversion_alpm_no_panic := @Verif.Tie.Parse.Alpm.newversion_alpm_no_panic.
+Definition C06_tie_parse_alpm_newversion := @Verif.Tie.Parse.Alpm.tie_parse_alpm_newversion.
+Definition C06_tie_parse_alpm_parseConstraint := @Verif.Tie.Parse.AlpmRange.tie_parse_alpm_parseConstraint.
+Definition C06_tie_parse_alpm_parseConstraints := @Verif.Tie.Parse.AlpmRange.tie_parse_alpm_parseConstraints.
+Definition C06_tie_parse_alpm_newversionrange := @Verif.Tie.Parse.AlpmRange.tie_parse_alpm_newversionrange.
+Definition C06_tie_parse_alpm_newversionrange_model := @Verif.Tie.Parse.AlpmRange.tie_parse_alpm_newversionrange_model.
+Definition C06_tie_newversion_apache_no_panic := @Verif.Tie.Parse.Apache.newversion_apache_no_panic.
+Definition C06_tie_parse_apache_newversion := @Verif.Tie.Parse.Apache.tie_parse_apache_newversion.
+Definition C06_tie_parse_apache_parseConstraint := @Verif.Tie.Parse.ApacheRange.tie_parse_apache_parseConstraint.
+Definition C06_tie_parse_apache_parseConstraints := @Verif.Tie.Parse.ApacheRange.tie_parse_apache_parseConstraints.
+Definition C06_tie_parse_apache_newversionrange := @Verif.Tie.Parse.ApacheRange.tie_parse_apache_newversionrange.
+Definition C06_tie_newversion_cargo_no_panic := @Verif.Tie.Parse.Cargo.newversion_cargo_no_panic.
+Definition C06_tie_parse_cargo_newversion := @Verif.Tie.Parse.Cargo.tie_parse_cargo_newversion.
+Definition C06_tie_parse_cargo_parseConstraint := @Verif.Tie.Parse.CargoRange.tie_parse_cargo_parseConstraint.
+Definition C06_tie_parse_cargo_parseConstraints := @Verif.Tie.Parse.CargoRange.tie_parse_cargo_parseConstraints.
+Definition C06_tie_parse_cargo_newversionrange_nv := @Verif.Tie.Parse.CargoRange.tie_parse_cargo_newversionrange_nv.
+Definition C06_tie_parse_cargo_newversionrange := @Verif.Tie.Parse.CargoRange.tie_parse_cargo_newversionrange.
+Definition C06_tie_parse_composer_parseHyphenRange := @Verif.Tie.Parse.ComposerRange.tie_parse_composer_parseHyphenRange.
+Definition C06_tie_parse_composer_space := @Verif.Tie.Parse.ComposerRange.tie_parse_composer_space.
+Definition C06_tie_parse_composer_parseRange := @Verif.Tie.Parse.ComposerRange.tie_parse_composer_parseRange.
+Definition C06_tie_parse_composer_parseRangeGroups := @Verif.Tie.Parse.ComposerRange.tie_parse_composer_parseRangeGroups.
+Definition C06_tie_parse_composer_newversionrange := @Verif.Tie.Parse.ComposerRange.tie_parse_composer_newversionrange.
+Definition C06_tie_newversion_conan_no_panic := @Verif.Tie.Parse.Conan.newversion_conan_no_panic.
+Definition C06_tie_newversion_matched := @Verif.Tie.Parse.Conan.newversion_matched.
+Definition C06_tie_newversion_unmatched := @Verif.Tie.Parse.Conan.newversion_unmatched.
+Definition C06_tie_parse_conan_newversion := @Verif.Tie.Parse.Conan.tie_parse_conan_newversion.
+Definition C06_tie_parse_conan_newversionrange := @Verif.Tie.Parse.ConanRange.tie_parse_conan_newversionrange.
+Definition C06_tie_parse_cran_parseConstraint := @Verif.Tie.Parse.CranRange.tie_parse_cran_parseConstraint.
+Definition C06_tie_parse_cran_parseConstraints := @Verif.Tie.Parse.CranRange.tie_parse_cran_parseConstraints.
+Definition C06_tie_parse_cran_newversionrange := @Verif.Tie.Parse.CranRange.tie_parse_cran_newversionrange.
+Definition C06_tie_newversion_debian_no_panic := @Verif.Tie.Parse.Debian.newversion_debian_no_panic.
+Definition C06_tie_parse_debian_newversion := @Verif.Tie.Parse.Debian.tie_parse_debian_newversion.
+Definition C06_tie_parse_debian_parseConstraint := @Verif.Tie.Parse.DebianRange.tie_parse_debian_parseConstraint.
+Definition C06_tie_parse_debian_parseConstraints := @Verif.Tie.Parse.DebianRange.tie_parse_debian_parseConstraints.
+Definition C06_tie_parse_debian_newversionrange := @Verif.Tie.Parse.DebianRange.tie_parse_debian_newversionrange.
+Definition C06_tie_newversionrange_debian_no_panic_closed := @Verif.Tie.Parse.DebianRangeClosed.newversionrange_debian_no_panic_closed.
+Definition C06_tie_parse_debian_newversionrange_closed := @Verif.Tie.Parse.DebianRangeClosed.tie_parse_debian_newversionrange_closed.
+Definition C06_tie_newversion_gem_no_panic := @Verif.Tie.Parse.Gem.newversion_gem_no_panic.
+Definition C06_tie_parse_gem_parseSegments := @Verif.Tie.Parse.Gem.tie_parse_gem_parseSegments.
+Definition C06_tie_parse_gem_newversion := @Verif.Tie.Parse.Gem.tie_parse_gem_newversion.
+Definition C06_tie_parse_gem_parseConstraint := @Verif.Tie.Parse.GemRange.tie_parse_gem_parseConstraint.
+Definition C06_tie_parse_gem_parseConstraints := @Verif.Tie.Parse.GemRange.tie_parse_gem_parseConstraints.
+Definition C06_tie_parse_gem_newversionrange_core := @Verif.Tie.Parse.GemRange.tie_parse_gem_newversionrange_core.
+Definition C06_tie_parse_gem_newversionrange := @Verif.Tie.Parse.GemRange.tie_parse_gem_newversionrange.
+Definition C06_tie_newversion_gentoo_no_panic := @Verif.Tie.Parse.Gentoo.newversion_gentoo_no_panic.
+Definition C06_tie_parse_gentoo_newversion := @Verif.Tie.Parse.Gentoo.tie_parse_gentoo_newversion.
+Definition C06_tie_parse_gentoo_parseSingleConstraint := @Verif.Tie.Parse.GentooRange.tie_parse_gentoo_parseSingleConstraint.
+Definition C06_tie_parse_gentoo_parseRange := @Verif.Tie.Parse.GentooRange.tie_parse_gentoo_parseRange.
+Definition C06_tie_parse_gentoo_newversionrange := @Verif.Tie.Parse.GentooRange.tie_parse_gentoo_newversionrange.
+Definition C06_tie_newversionrange_gentoo_no_panic_closed := @Verif.Tie.Parse.GentooRangeClosed.newversionrange_gentoo_no_panic_closed.
+Definition C06_tie_parse_gentoo_newversionrange_closed := @Verif.Tie.Parse.GentooRangeClosed.tie_parse_gentoo_newversionrange_closed.
+Definition C06_tie_newversion_github_no_panic := @Verif.Tie.Parse.Github.newversion_github_no_panic.
+Definition C06_tie_parse_github_newversion := @Verif.Tie.Parse.Github.tie_parse_github_newversion.
+Definition C06_tie_parse_github_parseConstraint := @Verif.Tie.Parse.GithubRange.tie_parse_github_parseConstraint.
+Definition C06_tie_parse_github_parseConstraints := @Verif.Tie.Parse.GithubRange.tie_parse_github_parseConstraints.
+Definition C06_tie_parse_github_newversionrange := @Verif.Tie.Parse.GithubRange.tie_parse_github_newversionrange.
+Definition C06_tie_parse_github_newversionrange_model := @Verif.Tie.Parse.GithubRange.tie_parse_github_newversionrange_model.
+Definition C06_tie_parse_golang_parseSingleGoConstraint := @Verif.Tie.Parse.GolangRange.tie_parse_golang_parseSingleGoConstraint.
+Definition C06_tie_parse_golang_parseGoRange := @Verif.Tie.Parse.GolangRange.tie_parse_golang_parseGoRange.
+Definition C06_tie_parse_golang_newversionrange := @Verif.Tie.Parse.GolangRange.tie_parse_golang_newversionrange.
+Definition C06_tie_newversion_hex_no_panic := @Verif.Tie.Parse.Hex.newversion_hex_no_panic.
+Definition C06_tie_parse_hex_parseConstraint := @Verif.Tie.Parse.HexRange.tie_parse_hex_parseConstraint.
+Definition C06_tie_parse_hex_parseConstraints := @Verif.Tie.Parse.HexRange.tie_parse_hex_parseConstraints.
+Definition C06_tie_parse_hex_newversionrange := @Verif.Tie.Parse.HexRange.tie_parse_hex_newversionrange.
+Definition C06_tie_newversion_mattermost_no_panic := @Verif.Tie.Parse.Mattermost.newversion_mattermost_no_panic.
+Definition C06_tie_parse_mattermost_parseConstraint := @Verif.Tie.Parse.MattermostRange.tie_parse_mattermost_parseConstraint.
+Definition C06_tie_parse_mattermost_parseConstraints := @Verif.Tie.Parse.MattermostRange.tie_parse_mattermost_parseConstraints.
+Definition C06_tie_parse_mattermost_newversionrange := @Verif.Tie.Parse.MattermostRange.tie_parse_mattermost_newversionrange.
+Definition C06_tie_newversion_maven_no_panic := @Verif.Tie.Parse.Maven.newversion_maven_no_panic.
+Definition C06_tie_parse_maven_isValidMavenVersion := @Verif.Tie.Parse.Maven.tie_parse_maven_isValidMavenVersion.
+Definition C06_tie_parse_maven_newversion := @Verif.Tie.Parse.Maven.tie_parse_maven_newversion.
+Definition C06_tie_parse_maven_newversionrange := @Verif.Tie.Parse.MavenRange.tie_parse_maven_newversionrange.
+Definition C06_tie_newversion_npm_no_panic := @Verif.Tie.Parse.Npm.newversion_npm_no_panic.
+Definition C06_tie_parse_npm_newversion := @Verif.Tie.Parse.Npm.tie_parse_npm_newversion.
+Definition C06_tie_newversionrange_npm_no_panic_closed := @Verif.Tie.Parse.NpmRangeClosed.newversionrange_npm_no_panic_closed.
+Definition C06_tie_newversion_nuget_no_panic := @Verif.Tie.Parse.Nuget.newversion_nuget_no_panic.
+Definition C06_tie_parse_nuget_newversion := @Verif.Tie.Parse.Nuget.tie_parse_nuget_newversion.
+Definition C06_tie_newversionrange_nuget_no_panic_closed := @Verif.Tie.Parse.NugetRangeClosed.newversionrange_nuget_no_panic_closed.
+Definition C06_tie_parse_pypi_parseSingleConstraint := @Verif.Tie.Parse.PypiRange.tie_parse_pypi_parseSingleConstraint.
+Definition C06_tie_parse_pypi_newversionrange := @Verif.Tie.Parse.PypiRange.tie_parse_pypi_newversionrange.
+Definition C06_tie_newversion_rpm_no_panic := @Verif.Tie.Parse.Rpm.newversion_rpm_no_panic.
+Definition C06_tie_parse_rpm_newversion := @Verif.Tie.Parse.Rpm.tie_parse_rpm_newversion.
+Definition C06_tie_parse_rpm_parseConstraint := @Verif.Tie.Parse.RpmRange.tie_parse_rpm_parseConstraint.
+Definition C06_tie_parse_rpm_parseConstraints := @Verif.Tie.Parse.RpmRange.tie_parse_rpm_parseConstraints.
+Definition C06_tie_parse_rpm_newversionrange := @Verif.Tie.Parse.RpmRange.tie_parse_rpm_newversionrange.
+Definition C06_tie_newversionrange_rpm_no_panic_closed := @Verif.Tie.Parse.RpmRangeClosed.newversionrange_rpm_no_panic_closed.
+Definition C06_tie_parse_rpm_newversionrange_closed := @Verif.Tie.Parse.RpmRangeClosed.tie_parse_rpm_newversionrange_closed.
+Definition C06_tie_newversion_semver_no_panic := @Verif.Tie.Parse.Semver.newversion_semver_no_panic.
+Definition C06_tie_parse_semver_newversion := @Verif.Tie.Parse.Semver.tie_parse_semver_newversion.
+Definition C06_tie_parse_semver_comma := @Verif.Tie.Parse.SemverRange.tie_parse_semver_comma.
+Definition C06_tie_parse_semver_space := @Verif.Tie.Parse.SemverRange.tie_parse_semver_space.
+Definition C06_tie_parse_semver_newversionrange := @Verif.Tie.Parse.SemverRange.tie_parse_semver_newversionrange.
+Definition C06_tie_shouldMergeConstraints_tie := @Verif.Tie.Vers.Code.shouldMergeConstraints_tie.
+Definition C06_tie_ensureVPrefix_tie := @Verif.Tie.Vers.Code.ensureVPrefix_tie.
+Definition C06_tie_parseConstraint_tie := @Verif.Tie.Vers.Constraints.parseConstraint_tie.
+Definition C06_tie_parseConstraint_finished := @Verif.Tie.Vers.Constraints.parseConstraint_finished.
+Definition C06_tie_parseConstraints_tie := @Verif.Tie.Vers.Constraints.parseConstraints_tie.
+Definition C06_tie_parseConstraints_finished := @Verif.Tie.Vers.Constraints.parseConstraints_finished.
+Definition C06_tie_parseConstraints_normalize := @Verif.Tie.Vers.Constraints.parseConstraints_normalize.
+Definition C06_tie_alternatingIntervals_no_panic := @Verif.Tie.Vers.CoreAlternating.alternatingIntervals_no_panic.
+Definition C06_tie_alternatingIntervals_total := @Verif.Tie.Vers.CoreAlternating.alternatingIntervals_total.
+Definition C06_tie_isPyPIPrerelease_tie := @Verif.Tie.Vers.CoreDispatch.isPyPIPrerelease_tie.
+Definition C06_tie_pypiContains_tie := @Verif.Tie.Vers.CoreDispatch.pypiContains_tie.
+Definition C06_tie_Contains_tie := @Verif.Tie.Vers.CoreDispatch.Contains_tie.
+Definition C06_tie_Contains_no_panic := @Verif.Tie.Vers.CoreDispatch.Contains_no_panic.
+Definition C06_tie_groupConstraintsIntoIntervals_no_panic := @Verif.Tie.Vers.CoreGroup.groupConstraintsIntoIntervals_no_panic.
+Definition C06_tie_groupConstraintsIntoIntervals_total := @Verif.Tie.Vers.CoreGroup.groupConstraintsIntoIntervals_total.
+Definition C06_tie_alternatingIntervals_tie := @Verif.Tie.Vers.CoreGroupTie.alternatingIntervals_tie.
+Definition C06_tie_alternatingIntervals_tie_finished := @Verif.Tie.Vers.CoreGroupTie.alternatingIntervals_tie_finished.
+Definition C06_tie_groupConstraintsIntoIntervals_tie := @Verif.Tie.Vers.CoreGroupTie.groupConstraintsIntoIntervals_tie.
+Definition C06_tie_groupConstraintsIntoIntervals_tie_finished := @Verif.Tie.Vers.CoreGroupTie.groupConstraintsIntoIntervals_tie_finished.
+Definition C06_tie_toRanges_tie := @Verif.Tie.Vers.CoreToRanges.toRanges_tie.
+Definition C06_tie_toRanges_no_panic := @Verif.Tie.Vers.CoreToRanges.toRanges_no_panic.
+Definition C06_tie_toRanges_normalize := @Verif.Tie.Vers.CoreToRanges.toRanges_normalize.
+Definition C06_tie_alpine_printer_tie := @Verif.Tie.Vers.Printers.alpine_printer_tie.
+Definition C06_tie_cargo_printer_tie := @Verif.Tie.Vers.Printers.cargo_printer_tie.
+Definition C06_tie_debian_printer_tie := @Verif.Tie.Vers.Printers.debian_printer_tie.
+Definition C06_tie_gem_printer_tie := @Verif.Tie.Vers.Printers.gem_printer_tie.
+Definition C06_tie_golang_printer_tie := @Verif.Tie.Vers.Printers.golang_printer_tie.
+Definition C06_tie_maven_printer_tie := @Verif.Tie.Vers.Printers.maven_printer_tie.
+Definition C06_tie_npm_printer_tie := @Verif.Tie.Vers.Printers.npm_printer_tie.
+Definition C06_tie_nuget_printer_tie := @Verif.Tie.Vers.Printers.nuget_printer_tie.
+Definition C06_tie_pypi_printer_tie := @Verif.Tie.Vers.Printers.pypi_printer_tie.
+Definition C06_tie_rpm_printer_tie := @Verif.Tie.Vers.Printers.rpm_printer_tie.
+Definition C06_tie_semver_printer_tie := @Verif.Tie.Vers.Printers.semver_printer_tie.
+Definition C06_tie_printers_keys := @Verif.Tie.Vers.Printers.printers_keys.
+Definition C06_tie_printers_match_style_table := @Verif.Tie.Vers.Printers.printers_match_style_table.
+Definition C06_tie_printers_on_model_interval := @Verif.Tie.Vers.Printers.printers_on_model_interval.
+Definition C06_tie_containsPrereleaseMarkers_tie := @Verif.Tie.Vers.Pypi.containsPrereleaseMarkers_tie.
+Definition C06_tie_containsPrereleaseMarkers_finished := @Verif.Tie.Vers.Pypi.containsPrereleaseMarkers_finished.
+Definition C06_tie_constraintsIncludePrerelease_finished := @Verif.Tie.Vers.Pypi.constraintsIncludePrerelease_finished.
+Definition C06_tie_constraintsIncludePrerelease_tie := @Verif.Tie.Vers.Pypi.constraintsIncludePrerelease_tie.
+Definition C06_tie_printers_texts := @Verif.Tie.Vers.Texts.printers_texts.
+Definition C06_tie_printers_texts_normalize := @Verif.Tie.Vers.Texts.printers_texts_normalize.
+Definition C06_tie_valid_tie := @Verif.Tie.Vers.Valid.valid_tie.
+Definition C06_tie_valid_finished := @Verif.Tie.Vers.Valid.valid_finished.
+Definition C06_tie_scheme_tie := @Verif.Tie.Vers.Valid.scheme_tie.
+Definition C06_tie_scheme_finished := @Verif.Tie.Vers.Valid.scheme_finished.
+Definition C06_tie_run_src_no_panic := @Verif.Tie.Cli.Run.run_src_no_panic.
+Definition C06_tie_run_no_panic := @Verif.Tie.Cli.RunInst.run_no_panic.
+Definition C06_tie_compare_no_panic := @Verif.Tie.Cli.Spec.compare_no_panic.
+Definition C06_tie_contains_no_panic := @Verif.Tie.Cli.Spec.contains_no_panic.
+Definition C06_tie_sort_no_panic := @Verif.Tie.Cli.Spec.sort_no_panic.
+Definition C06_tie_runEcosystem_no_panic := @Verif.Tie.Cli.Spec.runEcosystem_no_panic.
+Definition C06_tie_versContains_no_panic := @Verif.Tie.Cli.Spec.versContains_no_panic.
+Definition C06_tie_runVers_no_panic := @Verif.Tie.Cli.Spec.runVers_no_panic.
+Definition C06_ties_all := (C06_tie_Contains_no_panic, (C06_tie_Contains_tie, (C06_tie_alpine_printer_tie, (C06_tie_alternatingIntervals_no_panic, (C06_tie_alternatingIntervals_tie, (C06_tie_alternatingIntervals_tie_finished, (C06_tie_alternatingIntervals_total, (C06_tie_cargo_printer_tie, (C06_tie_compare_no_panic, (C06_tie_constraintsIncludePrerelease_finished, (C06_tie_constraintsIncludePrerelease_tie, (C06_tie_containsPrereleaseMarkers_finished, (C06_tie_containsPrereleaseMarkers_tie, (C06_tie_contains_no_panic, (C06_tie_debian_printer_tie, (C06_tie_ensureVPrefix_tie, (C06_tie_gem_printer_tie, (C06_tie_golang_printer_tie, (C06_tie_groupConstraintsIntoIntervals_no_panic, (C06_tie_groupConstraintsIntoIntervals_tie, (C06_tie_groupConstraintsIntoIntervals_tie_finished, (C06_tie_groupConstraintsIntoIntervals_total, (C06_tie_isPyPIPrerelease_tie, (C06_tie_loops_alpine_compareNumericArraysNumeric_no_panic, (C06_tie_loops_alpine_compareSuffixArrays_no_panic, (C06_tie_loops_alpine_hasLeadingZero_no_panic, (C06_tie_loops_alpm_compareSegmentBySegment_no_panic, (C06_tie_loops_alpm_compareSegments_no_panic, (C06_tie_loops_alpm_isAlphaSegment_no_panic, (C06_tie_loops_cargo_comparePrereleaseIdentifiers_no_panic, (C06_tie_loops_conan_caretMatch_no_panic, (C06_tie_loops_conan_comparePrerelease_no_panic, (C06_tie_loops_conan_compareVersionParts_no_panic, (C06_tie_loops_conan_naturalCompare_no_panic, (C06_tie_loops_conan_tildeMatch_no_panic, (C06_tie_loops_cran_compare_no_panic, (C06_tie_loops_debian_no_panic, (C06_tie_loops_gem_compareSegmentArrays_no_panic, (C06_tie_loops_gem_compare_no_panic, (C06_tie_loops_gem_removeTrailingZeros_no_panic, (C06_tie_loops_gem_split_no_panic, (C06_tie_loops_golang_comparePrerelease_no_panic, (C06_tie_loops_hex_comparePreRelease_no_panic, (C06_tie_loops_maven_trimTrailingNulls_no_panic, (C06_tie_loops_npm_comparePrerelease_no_panic, (C06_tie_loops_nuget_comparePrerelease_no_panic, (C06_tie_loops_pypi_compareReleaseVersions_no_panic, (C06_tie_loops_rpm_compareRPMVersionString_no_panic, (C06_tie_loops_semver_comparePrerelease_no_panic, (C06_tie_maven_printer_tie, (C06_tie_newversion_alpm_no_panic, (C06_tie_newversion_apache_no_panic, (C06_tie_newversion_cargo_no_panic, (C06_tie_newversion_conan_no_panic, (C06_tie_newversion_debian_no_panic, (C06_tie_newversion_gem_no_panic, (C06_tie_newversion_gentoo_no_panic, (C06_tie_newversion_github_no_panic, (C06_tie_newversion_hex_no_panic, (C06_tie_newversion_matched, (C06_tie_newversion_mattermost_no_panic, (C06_tie_newversion_maven_no_panic, (C06_tie_newversion_npm_no_panic, (C06_tie_newversion_nuget_no_panic, (C06_tie_newversion_rpm_no_panic, (C06_tie_newversion_semver_no_panic, (C06_tie_newversion_unmatched, (C06_tie_newversionrange_debian_no_panic_closed, (C06_tie_newversionrange_gentoo_no_panic_closed, (C06_tie_newversionrange_npm_no_panic_closed, (C06_tie_newversionrange_nuget_no_panic_closed, (C06_tie_newversionrange_rpm_no_panic_closed, (C06_tie_npm_printer_tie, (C06_tie_nuget_printer_tie, (C06_tie_parseConstraint_finished, (C06_tie_parseConstraint_tie, (C06_tie_parseConstraints_finished, (C06_tie_parseConstraints_normalize, (C06_tie_parseConstraints_tie, (C06_tie_parse_alpine_newversionrange, (C06_tie_parse_alpine_parseConstraint, (C06_tie_parse_alpine_parseConstraints, (C06_tie_parse_alpm_newversion, (C06_tie_parse_alpm_newversionrange, (C06_tie_parse_alpm_newversionrange_model, (C06_tie_parse_alpm_parseConstraint, (C06_tie_parse_alpm_parseConstraints, (C06_tie_parse_apache_newversion, (C06_tie_parse_apache_newversionrange, (C06_tie_parse_apache_parseConstraint, (C06_tie_parse_apache_parseConstraints, (C06_tie_parse_cargo_newversion, (C06_tie_parse_cargo_newversionrange, (C06_tie_parse_cargo_newversionrange_nv, (C06_tie_parse_cargo_parseConstraint, (C06_tie_parse_cargo_parseConstraints, (C06_tie_parse_composer_newversionrange, (C06_tie_parse_composer_parseHyphenRange, (C06_tie_parse_composer_parseRange, (C06_tie_parse_composer_parseRangeGroups, (C06_tie_parse_composer_space, (C06_tie_parse_conan_newversion, (C06_tie_parse_conan_newversionrange, (C06_tie_parse_cran_newversionrange, (C06_tie_parse_cran_parseConstraint, (C06_tie_parse_cran_parseConstraints, (C06_tie_parse_debian_newversion, (C06_tie_parse_debian_newversionrange, (C06_tie_parse_debian_newversionrange_closed, (C06_tie_parse_debian_parseConstraint, (C06_tie_parse_debian_parseConstraints, (C06_tie_parse_gem_newversion, (C06_tie_parse_gem_newversionrange, (C06_tie_parse_gem_newversionrange_core, (C06_tie_parse_gem_parseConstraint, (C06_tie_parse_gem_parseConstraints, (C06_tie_parse_gem_parseSegments, (C06_tie_parse_gentoo_newversion, (C06_tie_parse_gentoo_newversionrange, (C06_tie_parse_gentoo_newversionrange_closed, (C06_tie_parse_gentoo_parseRange, (C06_tie_parse_gentoo_parseSingleConstraint, (C06_tie_parse_github_newversion, (C06_tie_parse_github_newversionrange, (C06_tie_parse_github_newversionrange_model, (C06_tie_parse_github_parseConstraint, (C06_tie_parse_github_parseConstraints, (C06_tie_parse_golang_newversionrange, (C06_tie_parse_golang_parseGoRange, (C06_tie_parse_golang_parseSingleGoConstraint, (C06_tie_parse_hex_newversionrange, (C06_tie_parse_hex_parseConstraint, (C06_tie_parse_hex_parseConstraints, (C06_tie_parse_mattermost_newversionrange, (C06_tie_parse_mattermost_parseConstraint, (C06_tie_parse_mattermost_parseConstraints, (C06_tie_parse_maven_isValidMavenVersion, (C06_tie_parse_maven_newversion, (C06_tie_parse_maven_newversionrange, (C06_tie_parse_npm_newversion, (C06_tie_parse_nuget_newversion, (C06_tie_parse_pypi_newversionrange, (C06_tie_parse_pypi_parseSingleConstraint, (C06_tie_parse_rpm_newversion, (C06_tie_parse_rpm_newversionrange, (C06_tie_parse_rpm_newversionrange_closed, (C06_tie_parse_rpm_parseConstraint, (C06_tie_parse_rpm_parseConstraints, (C06_tie_parse_semver_comma, (C06_tie_parse_semver_newversion, (C06_tie_parse_semver_newversionrange, (C06_tie_parse_semver_space, (C06_tie_printers_keys, (C06_tie_printers_match_style_table, (C06_tie_printers_on_model_interval, (C06_tie_printers_texts, (C06_tie_printers_texts_normalize, (C06_tie_pypiContains_tie, (C06_tie_pypi_printer_tie, (C06_tie_rpm_printer_tie, (C06_tie_runEcosystem_no_panic, (C06_tie_runVers_no_panic, (C06_tie_run_no_panic, (C06_tie_run_src_no_panic, (C06_tie_scheme_finished, (C06_tie_scheme_tie, (C06_tie_semver_printer_tie, (C06_tie_shouldMergeConstraints_tie, (C06_tie_sort_no_panic, (C06_tie_toRanges_no_panic, (C06_tie_toRanges_normalize, (C06_tie_toRanges_tie, (C06_tie_valid_finished, (C06_tie_valid_tie, C06_tie_versContains_no_panic)))))))))))))))))))))))))))))))))))))))))))))))))))))))))))))))))))))))))))))))))))))))))))))))))))))))))))))))))))))))))))))))))))))))))))))))))))))))))))))))))))))))))))))).
+Print Assumptions C06_ties_all.
 (* ====== ties to the source: END ====== *)
